@@ -5,6 +5,19 @@
 #define IGZIP_ZLIB_HDR_H
 #include "verif_common.h"
 
+/* witness ghosts (entry values, captured by the E_ hook) for the native replay; g_zo: arbitrary byte
+ * index in the output buffer, w_zold: next_out[g_zo] at entry (frame clauses) */
+extern uint32_t w_info, w_level, w_dict_flag, w_dict_id, w_avail_out;
+extern size_t g_zo;
+extern uint8_t w_zold;
+#define E_isal_write_zlib_header                                                                   \
+        w_info = z_hdr->info;                                                                      \
+        w_level = z_hdr->level;                                                                    \
+        w_dict_flag = z_hdr->dict_flag;                                                            \
+        w_dict_id = z_hdr->dict_id;                                                                \
+        w_avail_out = stream->avail_out;                                                           \
+        w_zold = g_zo < stream->avail_out ? stream->next_out[g_zo] : 0;
+
 #define ZH_NEED (z_hdr->dict_flag ? 6u : 2u)
 #define ZH_OUT __CPROVER_old(stream->next_out)
 #define C_isal_write_zlib_header                                                                   \
@@ -14,6 +27,11 @@
         __CPROVER_requires(__CPROVER_is_fresh(stream->next_out, stream->avail_out))                \
         __CPROVER_assigns(stream->next_out, stream->avail_out, stream->total_out,                  \
                           __CPROVER_object_whole(stream->next_out))                                \
+        __CPROVER_assigns(w_info, w_level, w_dict_flag, w_dict_id, w_avail_out, w_zold)            \
+        /* bytes outside the header (all bytes, when there is no room) keep their value */         \
+        __CPROVER_ensures((g_zo < __CPROVER_old(stream->avail_out) &&                              \
+                           (__CPROVER_old(stream->avail_out) < ZH_NEED || g_zo >= ZH_NEED)) ==>    \
+                          ZH_OUT[g_zo] == w_zold)                                                  \
         /* too small: report the size needed, touch nothing */                                     \
         __CPROVER_ensures((__CPROVER_old(stream->avail_out) < ZH_NEED) ==>                         \
                           (__CPROVER_return_value == ZH_NEED &&                                    \
